@@ -58,9 +58,9 @@ class FnInfo(dict):
 
 
 class Frame:
-    __slots__ = ('body', 'fid', 'bb', 'dest', 'ret_target', 'visits', 'call_site')
+    __slots__ = ('body', 'fid', 'bb', 'dest', 'ret_target', 'visits', 'call_site', 'subst')
 
-    def __init__(self, body, fid, bb=0, dest=None, ret_target=None, call_site=None):
+    def __init__(self, body, fid, bb=0, dest=None, ret_target=None, call_site=None, subst=None):
         self.body = body
         self.fid = fid
         self.bb = bb
@@ -68,11 +68,19 @@ class Frame:
         self.ret_target = ret_target
         self.visits = {}
         self.call_site = call_site
+        self.subst = subst or {}        # type parameter name -> concrete type string, known from the inlining call site
 
     def copy(self):
-        f = Frame(self.body, self.fid, self.bb, self.dest, self.ret_target, self.call_site)
+        f = Frame(self.body, self.fid, self.bb, self.dest, self.ret_target, self.call_site, self.subst)
         f.visits = dict(self.visits)
         return f
+
+    def concrete(self, tix):
+        """type string of a type-table entry of this frame's crate, with this frame's type parameters substituted"""
+        t = self.body.crate.types[tix]
+        if t.get('k') == 'param':
+            return self.subst.get(t['s'], t['s'])
+        return t['s']
 
 
 class State:
@@ -222,9 +230,25 @@ class Engine:
         t = crate.types[tyix]
         return self.decode_bytes(hexs, t, crate)
 
-    def decode_bytes(self, hexs, t, crate):
+    def decode_bytes(self, hexs, t, crate, base=0, relocs=None):
+        """decode constant bytes by type layout; `relocs` = {absolute offset: fn info} for pointers stored in the constant
+        (function-pointer tables), `base` = offset of these bytes inside the whole constant"""
         raw = bytes.fromhex(hexs)
         k = t.get('k')
+        if k == 'fnptr' and relocs and base in relocs:
+            return ('fn', FnInfo(relocs[base]))
+        if k == 'tuple' and 'offsets' in t and len(t['offsets']) == len(t['args']):
+            fields = []
+            for off, sz, a in zip(t['offsets'], t.get('sizes') or [], t['args']):
+                off, sz = int(off), int(sz)
+                fields.append(self.decode_bytes(raw[off:off + sz].hex(), crate.types[int(a)], crate, base + off, relocs))
+            return ('agg', 'tuple', None, tuple(fields))
+        if k == 'array' and t.get('esize') and crate.types[t['inner']].get('k') not in ('int', 'uint'):
+            es = int(t['esize'])
+            if es > 0 and len(raw) % es == 0:
+                inner = crate.types[t['inner']]
+                return ('agg', 'array', None, tuple(self.decode_bytes(raw[i:i + es].hex(), inner, crate, base + i, relocs)
+                                                    for i in range(0, len(raw), es)))
         if k in ('int', 'uint', 'bool'):
             n = (t.get('bits', 8)) // 8 if k != 'bool' else 1
             val = int.from_bytes(raw[:n], 'little', signed=(k == 'int'))
@@ -237,6 +261,13 @@ class Engine:
                 for v in adt['variants']:
                     if v.get('discr', v['index']) == val:
                         return ('agg', t['s'], v['name'], ())
+            if adt and adt['kind'] == 'enum' and 'tag_off' in adt:
+                # a data-carrying enum with a directly encoded tag: the variant is known, payload bytes stay opaque
+                to, tsz = int(adt['tag_off']), int(adt['tag_size'])
+                val = int.from_bytes(raw[to:to + tsz], 'little')
+                for v in adt['variants']:
+                    if v.get('discr', v['index']) == val:
+                        return ('agg', t['s'], v['name'], tuple(C(('b', raw.hex()), 'payload') for _ in v['fields']))
             if adt and adt['kind'] == 'struct' and 'size' in adt:
                 fields = []
                 ok = True
@@ -246,7 +277,7 @@ class Engine:
                         break
                     ft = crate.types[f['ty']]
                     sub = raw[f['offset']:f['offset'] + f['size']]
-                    fields.append(self.decode_bytes(sub.hex(), ft, crate))
+                    fields.append(self.decode_bytes(sub.hex(), ft, crate, base + f['offset'], relocs))
                 if ok:
                     return ('agg', t['s'], adt['variants'][0]['name'], tuple(fields))
         if k == 'array':
@@ -273,7 +304,8 @@ class Engine:
         if 'str' in o:
             return C(('s', o['str']), ts)
         if 'bytes' in o:
-            return self.decode_bytes(o['bytes'], t, crate)
+            relocs = {int(r['off']): r['fn'] for r in (o.get('relocs') or [])}
+            return self.decode_bytes(o['bytes'], t, crate, 0, relocs or None)
         if 'ptr_bytes' in o:
             if t.get('k') in ('ref', 'ptr'):
                 return ('ref', (('K', o['ptr_bytes'], (t['inner'], crate)), ()))
@@ -384,6 +416,11 @@ class Engine:
             ops = tuple(self.operand(st, fr, o) for o in r['ops'])
             ak = r['ak']
             if ak == 'adt':
+                # S { a: x.a, b: x.b, .. } built from every field of one value x is x (a timespec re-assembled from its parts)
+                names = r.get('fields') or []
+                if len(ops) >= 2 and len(names) == len(ops) and all(o[0] == 't' and o[1] == 'field' and str(o[2][1]) == str(nm_)
+                                                                     for o, nm_ in zip(ops, names)) and len({o[2][0] for o in ops}) == 1:
+                    return ops[0][2][0]
                 return ('agg', dest_ty if dest_ty else r['adt'], r['vname'], ops)
             if ak == 'tuple':
                 return ('agg', 'tuple', None, ops)
@@ -723,6 +760,17 @@ class Engine:
         callee_body = None
         if fn and not in_tr:
             callee_body = self.facts.body(name)
+            if callee_body is None and fr.subst and (fn.get('targs') or []):
+                # `<P as Trait>::method` inside a generic function inlined with P known: pick the impl for that type
+                t0 = fr.body.crate.types[fn['targs'][0]]
+                if t0.get('k') == 'param' and t0['s'] in fr.subst and '::' in declared:
+                    trait_path, meth = declared.rsplit('::', 1)
+                    want = fr.subst[t0['s']]
+                    for cb_ in self.facts.bodies():
+                        if cb_.name == meth and cb_.impl_trait == trait_path and cb_.impl_self == want and cb_.defkind != 'Closure':
+                            callee_body = cb_
+                            name = cb_.path
+                            break
             if callee_body is None and fv[0] == 'fn' and fn.get('defkind') == 'Closure':
                 callee_body = self.facts.body(fn['path'])
         if callee_body is not None and len(st.frames) <= self.inline_depth \
@@ -730,7 +778,16 @@ class Engine:
                 and (self.inline_filter is None or self.inline_filter(callee_body)):
             self.inlined.add(callee_body.path)
             st.effects.append({'kind': 'inline', 'callee': callee_body.path, 'args': list(args), 'site': site, 'tracing': False})
-            nf = Frame(callee_body, st.next_fid, 0, dest, target, site)
+            subst = {}
+            targs = (fn or {}).get('targs') or []
+            # the resolved callee may list its own type arguments; prefer them when they match the generics in number
+            rt = ((fn or {}).get('resolved') or {}).get('targs')
+            if rt is not None and len(rt) == len(callee_body.generics):
+                targs = rt
+            if len(targs) == len(callee_body.generics):
+                for gname, tix in zip(callee_body.generics, targs):
+                    subst[gname] = fr.concrete(tix)
+            nf = Frame(callee_body, st.next_fid, 0, dest, target, site, subst)
             st.next_fid += 1
             for i, a in enumerate(args):
                 st.store[(('L', nf.fid, i + 1), ())] = a
